@@ -5,7 +5,7 @@ _RULE = ("scenario = (limits, linger, manual flushing, 1-5 producer goroutines x
          "real kgo client x real kfake in a testing/synctest bubble (virtual time), history = hook, promise, verif-event and call/return events; "
          "non-trivial = at least 10 produce calls and at least one blocked producer or failed promise; distinct = distinct scenario descriptors")
 PROP = Prop(
-    "C14", harness="sim01", harness_kind="test", tags="verif synctests", driver="C14",
+    "C14", harness="sim", quick=["--mode", "prod"], thorough=["--mode", "prod"], harness_kind="test", tags="verif synctests", driver="C14",
     models=[("pkg/kgo/producer.go", ["Client.produce", "Client.finishRecordPromise", "producer.finishPromises", "Client.Flush"])],
     rule=_RULE,
     trusted_base=["history monitor Model.Producer (acceptor over events; the theorems say every accepted history satisfies the Spec)",
